@@ -19,7 +19,7 @@ RULE = ('exhaustive units: every pair of method subsets of {GET,HEAD,POST,PUT,AN
         'Non-trivial = the dispatch needed a fallback, a 405 or a case conversion; distinct = distinct (table, verb, path).')
 PYOPT = {'quick': 1, 'thorough': 1}     # one unit of every kind is also served by an interpreter started with -O (assert statements compiled out)
 REQUIRED = ['units_run_under_python_-O', 'own_verb', 'head_to_get', 'to_any', 'head_to_any', 'status_405', 'status_404', 'allow_compared', 'lowercase_request_verb',
-            'lowercase_registration', 'rejected_duplicate', 'overwritten', 'removed_method', 'head_no_body', 'resolve_compared', 'empty_table_405', 'method_names_given_as_a_one_shot_iterator', 'paths_ending_in_a_truncated_utf8_sequence', 'respelled_rule', 'candidates_given_as_a_tuple', 'removed_names_given_as_a_tuple', 'whole_route_removed_then_possibly_registered_again']
+            'lowercase_registration', 'rejected_duplicate', 'overwritten', 'removed_method', 'head_no_body', 'resolve_compared', 'empty_table_405', 'method_names_given_as_a_one_shot_iterator', 'paths_ending_in_a_truncated_utf8_sequence', 'respelled_rule', 'candidates_given_as_a_tuple', 'removed_names_given_as_a_tuple', 'whole_route_removed_then_possibly_registered_again', 'candidate_lists_of_four_and_more_names', 'verb_replaced_by_a_before_request_hook']
 EXHAUSTIVE = {'quick': False, 'thorough': True,
               'quick_note': 'complete for one route: all 32 method subsets x 9 verbs x 4 paths',
               'thorough_note': 'complete for two routes: all 32x32 pairs of method subsets x 9 verbs x 4 paths'}
@@ -58,6 +58,20 @@ class World:
         self.calls = []
         self.hid = 0
         self.app.on_route('/hookonly', lambda p: None)
+
+        def tunnel():
+            # method tunnelling as middleware-in-a-hook does it: the verb of the request is replaced before routing
+            rq = self.app.request
+            ov = rq.headers.get('X-HTTP-Method-Override')
+            if ov:
+                how = rq.headers.get('X-Override-How', '')
+                if 'read' in how:
+                    rq.method                       # "only a POST may be tunnelled": the hook looks at the verb first
+                if 'item' in how:
+                    rq['REQUEST_METHOD'] = ov
+                else:
+                    rq.environ['REQUEST_METHOD'] = ov
+        self.app.add_hook('before_request', tunnel)
 
     def handler(self):
         self.hid += 1
@@ -214,6 +228,15 @@ def probe(ctx, w, rule_paths, verbs, wit_fn, sample=False):
                         ctx.violation('allow-header-differs-from-registered-methods', f'{where}: Allow {allow} expected {exp[1]!r}', wit)
                     if w.calls:
                         ctx.violation('handler-ran-on-405', f'{where}: {w.calls}', wit)
+            # the same verb arriving through a before_request hook that replaces REQUEST_METHOD: dispatch is by the verb as it is then
+            if (len(path) + len(verb)) % 3 == 0:
+                calls1, how = list(w.calls), ('read,item', 'item', 'read,environ', 'environ')[(len(path) + len(tbl)) % 4]
+                del w.calls[:]
+                r2 = call_app(app, make_environ('POST', path, headers={'X-HTTP-Method-Override': verb, 'X-Override-How': how}))
+                ctx.count('verb_replaced_by_a_before_request_hook')
+                if (r2.code, list(w.calls), r2.header_all('Allow'), r2.body) != (r.code, calls1, r.header_all('Allow'), r.body):
+                    ctx.violation('dispatch-ignores-the-verb-set-by-a-before_request-hook', f'{where}: sent as POST and replaced by the hook ({how}): {r2.status} handlers {w.calls} '
+                                  f'Allow {r2.header_all("Allow")}; sent directly: {r.status} handlers {calls1} Allow {r.header_all("Allow")}', wit)
             # the same question asked of the router directly
             ctx.count('resolve_compared')
             v = verb.upper()
@@ -228,6 +251,20 @@ def probe(ctx, w, rule_paths, verbs, wit_fn, sample=False):
             else:
                 if not err or err[0] != 405 or err[2] != exp[1]:
                     ctx.violation('resolve-disagrees-with-reference', f'{where}: resolve -> {ep} {err}', wit)
+            # longer candidate lists: names nobody registered in between change nothing (the first registered candidate wins)
+            k = (len(path) + len(tbl)) % 4
+            long = []
+            for i, mname in enumerate(methods):
+                long.append(mname)
+                long += ['X-NOBODY-%d' % j for j in range(i * 3, i * 3 + k)]
+            ctx.count('candidate_lists_of_four_and_more_names' if len(long) >= 4 else 'candidate_lists_short')
+            ep, err = app.router.resolve(path, long)
+            if exp[0] == 'handler':
+                if err or ep[0].handler.__name__ != exp[1]:
+                    ctx.violation('resolve-disagrees-with-reference', f'{where}: resolve with candidates {long} -> {ep and ep[0]} {err}', wit)
+            else:
+                if not err or err[0] != 405 or err[2] != exp[1]:
+                    ctx.violation('resolve-disagrees-with-reference', f'{where}: resolve with candidates {long} -> {ep} {err}', wit)
             ctx.case((tuple(sorted(tbl.items())), verb, path), nontrivial=nontriv)
             if sample and len(ctx.samples) < 6 and nontriv and ctx.rng.random() < 0.1:
                 ctx.sample({'table': tbl, 'request': f'{verb} {path}', 'status': r.status, 'Allow': r.header('Allow'), 'handler_ran': list(w.calls)})
